@@ -43,7 +43,8 @@ def one(job):
     logging.disable(logging.CRITICAL)
     seed, ntls, nquic, args = job[:4]
     rng = random.Random(seed)
-    feats = [{"scid_c_len": rng.choice([0, 0, 8]), "scid_s_len": rng.choice([0, 8, 8, 3])} for _ in range(nquic)]
+    feats = [{"scid_c_len": rng.choice([0, 0, 8]), "scid_s_len": rng.choice([0, 8, 8, 3]), "retry": False,
+              "prefix_cid": (q == 0 and seed % 2 == 0)} for q in range(nquic)]
     mx = e2e.Mixed(rng, [e2e.random_combo(rng) for _ in range(ntls)], n_quic=nquic, quic_features=feats)
     other = e2e.Mixed(rng, [e2e.random_combo(rng)], n_quic=1)
     d = tempfile.mkdtemp(prefix="tlx18_", dir=tool.TMPBASE)
@@ -87,10 +88,17 @@ def one(job):
         o1, o2, o3, o4 = (os.path.join(d, f"rep{i}.pcapng") for i in range(4))
         a = lambda o: ["-i", cap, "-s", kl, "-o", o] + list(args)
         b = lambda o: ["-i", cap2, "-s", kl2, "-o", o] + list(args)
-        for tag, runs, files in (("A,A", [a(o1), a(o2)], [o1, o2]), ("B,A", [b(o3), a(o4)], [o4])):
+        o5, o6 = os.path.join(d, "rep5.pcapng"), os.path.join(d, "rep6.pcapng")
+        bad_out = b(os.path.join(d, "no-such-dir", "x.pcapng"))                    # run B dies when opening its output file
+        bad_keys = ["-i", cap2, "-s", os.path.join(d, "missing.log"), "-o", o6, "-p", "5555"]   # run dies on a missing key log
+        for tag, runs, files in (("A,A", [a(o1), a(o2)], [o1, o2]), ("B,A", [b(o3), a(o4)], [o4]),
+                                 ("B-aborted,A", [bad_out, bad_keys, a(o5)], [o5])):
             p = subprocess.run([sys.executable, "-W", "ignore", "-c", INPROC, repr(runs)], cwd=tool.REPO, env=base_env,
                                stdout=subprocess.PIPE, stderr=subprocess.PIPE, text=True, timeout=300)
             status = [l for l in p.stdout.splitlines() if l.startswith("RUN")]
+            if tag == "B-aborted,A":
+                status = status[-1:]
+                runs = runs[-1:]
             if status != ["RUN ok"] * len(runs):
                 fails.append(f"in-process-repetition:{tag}: {status} {p.stderr[-200:]}")
             for f in files:
@@ -129,13 +137,13 @@ def explore(ctx, scale=1):
                      {"seed": job[0], "scenario": desc, **blob}, expected="byte-identical output files", actual=fails,
                      how="bin/check C18 --replay <this file>")
         else:
-            ctx.sample({"scenario": desc, "hash_seeds": [0] + list(job[4]), "cwds": 3, "in_process": ["A,A", "B,A"], "result": "identical"}, cap=3)
+            ctx.sample({"scenario": desc, "hash_seeds": [0] + list(job[4]), "cwds": 3, "in_process": ["A,A", "B,A", "B-aborted,A"], "result": "identical"}, cap=3)
 
 
 def run(ctx):
     ctx.rule = ("captures with ≥ 2 sessions (TLS + QUIC, QUIC CIDs of length 0/3/8 so that CID sets hold several entries) run as "
                 "CLI processes under PYTHONHASHSEED ∈ {0, 1..7 (first capture; all in thorough), 2 random}, three working "
-                "directories, a polluted environment, and in one interpreter as run();run() on (A, A) and (B, A). One "
+                "directories, a polluted environment, and in one interpreter as run();run() on (A, A), (B, A) and (B aborted by an unwritable output path, B aborted by a missing key log, A); some QUIC connections use a server CID that extends the client's original DCID. One "
                 "evaluation = one run; non-trivial iff the capture has ≥ 2 QUIC CIDs or ≥ 2 sessions and a non-empty output.")
     ctx.assumptions = ["the CLI is started with `python -m tlexport.main` from the tree under test"]
     explore(ctx)
